@@ -6,6 +6,7 @@ import Infretis.Lemmas.TemplateReSub
 import Infretis.Lemmas.TemplateCp2k
 import Infretis.Lemmas.TemplateCp2kMany
 import Infretis.Lemmas.TemplateCp2kWitness
+import Infretis.Lemmas.TemplateCp2kRoundTrip
 import Infretis.Lemmas.CodecFixed
 import Infretis.Lemmas.CodecLmp
 import Infretis.Lemmas.CodecBox
@@ -745,6 +746,30 @@ theorem cp2k_wfrvel_entries_ok (name timestep posfile : Str) (nsteps subcycles :
     ((wfrVelUpdates name timestep posfile nsteps subcycles pf vel).map (·.target)).Nodup ∧
     ∀ u ∈ wfrVelUpdates name timestep posfile nsteps subcycles pf vel, Guard u :=
   ⟨wfrVel_nodup name timestep posfile nsteps subcycles pf vel, wfrVel_guard name timestep posfile nsteps subcycles pf vel⟩
+
+/-- **print / read round trip over section forests** (the structural induction the tie used to carry alone):
+    parse ∘ print = id and print ∘ parse ∘ print = print.  For EVERY forest of `Tree.ok` trees — any number of root
+    sections, any depth, any number of children, parameters and data lines; `ok`: the title is one upper-case token
+    not starting with "END", parameters are tokens, data lines are stripped, non-empty, without line breaks and do not
+    start with '&' (the trees the reader builds from every text without a malformed `& END…` header; the tie checks this
+    on every text it reads, op `cp2kspec`) —
+    the text `dfs_print` writes is read back into a state whose forest is the same forest, children in the same
+    order, and printing that state gives the same text again. -/
+theorem cp2k_print_read_roundtrip (ts : List Tree) (hok : okTs ts = true) :
+    ∃ rs, readText (unlines (printForest ts)) = .ok rs ∧ toForest rs.arena rs.roots = ts ∧
+      printText rs.toSt = unlines (printForest ts) :=
+  Infretis.Cp2k.cp2k_read_print_forest ts hok
+
+/-- the arena the reader builds from a printed forest, explicitly: the nodes in preorder (`flats`), children lists
+    = the indices of the children, levels = depths, roots = the indices of the root sections -/
+theorem cp2k_read_printed_arena (ts : List Tree) (hok : okTs ts = true) :
+    readLines RS.init (printForest ts) = .ok ⟨flats none 0 0 ts, childIds 0 ts, none⟩ := by
+  have := readLines_printForest ts hok [] []
+  simpa [RS.init] using this
+
+example : okTs [.node "MOTION".toList [] ["! c".toList] [.node "MD".toList ["X".toList, "OFF".toList] ["STEPS 10".toList, "TIMESTEP [fs] 0.5".toList] [],
+                                                          .node "PRINT".toList [] [] [.node "EACH".toList [] ["MD 1".toList] []]],
+                .node "GLOBAL".toList [] ["PROJECT a b".toList] []] = true := by decide
 
 /-- concrete run (kernel-checked): the template `&MOTION / &MD / STEPS 10`, two atoms — every missing section is
     created, STEPS rewritten in place, TIMESTEP appended -/
